@@ -302,6 +302,24 @@ async fn run(name: &str) -> Result<(), String> {
                 }
                 let mut want: BTreeSet<(PathBuf, PathBuf)> = BTreeSet::new();
                 for r in &reach { for n in [".gitignore", ".ignore"] { let f = r.join(n); if f.is_file() && std::fs::metadata(&f).unwrap().len() > 0 { want.insert((f.strip_prefix(&root).unwrap().to_owned(), r.strip_prefix(&root).unwrap().to_owned())); } } }
+                // with explicit watch paths: only directories beneath a watched path, or above one, are searched
+                if configs % 5 == 1 {
+                    for watches in [vec![root.join("a/b")], vec![root.join("x"), root.join("a/b/c")]] {
+                        let related = |p: &Path| watches.iter().any(|w| p.starts_with(w) || w.starts_with(p));
+                        let mut reach_w: Vec<PathBuf> = vec![root.clone()];
+                        for d in dirs { let p = root.join(d); if reach_w.iter().any(|r| Some(r.as_path()) == p.parent()) && !ignored_dir(&p) && related(&p) { reach_w.push(p); } }
+                        let mut want_w: BTreeSet<(PathBuf, PathBuf)> = BTreeSet::new();
+                        for r in &reach_w { for n in [".gitignore", ".ignore"] { let f = r.join(n); if f.is_file() && std::fs::metadata(&f).unwrap().len() > 0 { want_w.insert((f.strip_prefix(&root).unwrap().to_owned(), r.strip_prefix(&root).unwrap().to_owned())); } } }
+                        let args = ignore_files::IgnoreFilesFromOriginArgs::new(&root, watches.clone(), vec![]).map_err(|e| e.to_string())?;
+                        let (files, errors) = ignore_files::from_origin(args).await;
+                        if !errors.is_empty() { return Err(format!("discovery reported errors: {errors:?}")); }
+                        let got_w: BTreeSet<(PathBuf, PathBuf)> = files.iter().map(|f| (f.path.strip_prefix(&root).unwrap_or(&f.path).to_owned(), f.applies_in.as_ref().map(|a| a.strip_prefix(&root).unwrap_or(a).to_owned()).unwrap_or_default())).collect();
+                        if got_w != want_w {
+                            return Err(format!("ignore files {:?}, explicit watches {:?}: discovery returned (file, applies in) with unexpected {:?} and missing {:?}", gitignores.iter().map(|(d, c)| (d.strip_prefix(&root).unwrap().join(".gitignore"), c.as_str())).collect::<Vec<_>>(),
+                                watches.iter().map(|w| w.strip_prefix(&root).unwrap()).collect::<Vec<_>>(), got_w.difference(&want_w).collect::<Vec<_>>(), want_w.difference(&got_w).collect::<Vec<_>>()));
+                        }
+                    }
+                }
                 let (files, errors) = ignore_files::from_origin(root.as_path()).await;
                 if !errors.is_empty() { return Err(format!("discovery reported errors: {errors:?}")); }
                 let got: BTreeSet<(PathBuf, PathBuf)> = files.iter().map(|f| (f.path.strip_prefix(&root).unwrap_or(&f.path).to_owned(), f.applies_in.as_ref().map(|a| a.strip_prefix(&root).unwrap_or(a).to_owned()).unwrap_or_default())).collect();
